@@ -38,13 +38,6 @@ structure WFNode (n : NodeInfo) : Prop where
   uc : WF n.usage.cpuMap
   un : WF n.usage.numaMemory
 
-/-- the conditions checked by `NodeResourceInfo.Validate` -/
-def Valid (n : NodeInfo) : Prop :=
-  n.capacity.cpuMap.length ≠ 0 ∧ n.cpuMapOk = true ∧
-  (n.capacity.numa.length > 0 → n.numaTopoErr = none ∧ n.numaMemOk = true)
-
-instance (n : NodeInfo) : Decidable (Valid n) := by unfold Valid; exact inferInstance
-
 theorem NodeRes.deepCopy_eq (r : NodeRes) (h1 : WF r.cpuMap) (h2 : WF r.numaMemory) : r.deepCopy = r := by
   unfold NodeRes.deepCopy; rw [copyMap_eq_self _ h1, copyMap_eq_self _ h2]
 
